@@ -270,6 +270,8 @@ func checkC02(c *Ctx) {
 		"the set and new contents of the pre-existing cells that were modified, freshness of what the base newly reaches; oracle: only cells the base reached may be modified, nothing pre-existing becomes newly reachable. " +
 		"stream D: VerifCompose with 0-3 layers sharing memory among defaults and layers vs the heap model of compose (hp compose): same comparison. " +
 		"non-trivial: A = at least one layer and at least 2 reference-typed addresses in the result; B = at least 3 reports; C = outcome ok, the base changed and reaches at least 3 addresses; D = ok, at least one layer, at least 3 addresses; distinct = by canonical input text"
+	rtEqualReports(c, c.scale(60, 1500))
+	rtReuse(c, c.scale(40, 1000))
 	nA, nB := c.scale(1500, 40000), c.scale(300, 8000)
 	defer checkC02Overlay(c)                          // streams C and D (c02ov.go)
 	if only := os.Getenv("C02_STREAMS"); only != "" { // debugging aid: e.g. C02_STREAMS=CD runs the model streams alone
